@@ -154,6 +154,46 @@ type Env struct {
 	simSeconds float64
 	frozen  bool
 	KnownHits map[string]int
+	// anchors: simulated instants from which the engine arms its timers (every engine timer is due a
+	// multiple of 0.2 s after one of them): last engine write, last peer feed, last connection open, last
+	// engine Logout, plus instants added by workloads.
+	anchors [5]time.Duration
+}
+
+// AddAnchor records "the engine (re)armed timers now".
+func (e *Env) AddAnchor() {
+	e.mu.Lock()
+	e.anchors[4] = time.Since(e.T0)
+	e.mu.Unlock()
+}
+
+// QuietWindow advances simulated time until no engine timer can fall due within the next w: neither the
+// session loop's 1 s ticker nor a timer armed at one of the anchors. Workloads that keep a second event
+// waiting for the session while it is busy use it to respect rule R1 (one ready source per select).
+func (e *Env) QuietWindow(w time.Duration) {
+	for try := 0; try < 12; try++ {
+		now := time.Since(e.T0)
+		bad := false
+		if d := now % time.Second; d > time.Second-w-time.Millisecond {
+			bad = true
+		}
+		e.mu.Lock()
+		for _, a := range e.anchors {
+			if a == 0 {
+				continue
+			}
+			d := (now - a) % (200 * time.Millisecond)
+			// (a slow callback delays the re-arming by its own duration, hence the margin after the anchor)
+			if d > 200*time.Millisecond-w-time.Millisecond || d < 8*time.Millisecond {
+				bad = true
+			}
+		}
+		e.mu.Unlock()
+		if !bad {
+			return
+		}
+		e.Advance(w/2 + 3*time.Millisecond)
+	}
 }
 
 var histCap = func() int {
@@ -201,6 +241,17 @@ func (e *Env) Rec(stream, kind, detail string, hashed bool) int {
 		h.Write([]byte{0})
 		h.Write([]byte(detail))
 		e.streams[stream] = h.Sum64()
+	}
+	switch {
+	case strings.HasPrefix(stream, "wire:") && kind == "engine>":
+		e.anchors[0] = time.Since(e.T0)
+		if strings.Contains(detail, "\x0135=5\x01") {
+			e.anchors[3] = e.anchors[0]
+		}
+	case strings.HasPrefix(stream, "peer>"):
+		e.anchors[1] = time.Since(e.T0)
+	case strings.HasPrefix(stream, "wire:") && kind == "open":
+		e.anchors[2] = time.Since(e.T0)
 	}
 	if e.Verbose {
 		fmt.Printf("  %6d %10.6f %-14s %-10s %s\n", ev.N, ev.T, stream, kind, printable(detail))
